@@ -7,7 +7,7 @@ ASSUMPTIONS = [
     "model: main/transpileFiles/transpileOne/OnParseError with the per-file translation and file I/O abstract (readable / translates / writable per argument); the tokenizer (scanTokenAt and all scanners, nextToken, newTkz, tkzNext) at byte level",
     "partial: termination of the parser, of type inference (incl. the occurs check of fix 1e8a7fd) and of emission is NOT modelled: it is tied by running the real binary under a timeout and a memory limit on mutants; scan_progress (every token consumes >= 1 byte) is validated by the tok streams, its Lean proof is pending",
     "cannot be exhibited by any model: Go stack exhaustion on deeply nested but finite input, out-of-memory, OS-level hangs",
-    "checks run as root: permission bits cannot induce a write fault, a directory in place of gen_X.go is used instead",
+    "checks run as root: permission bits cannot induce a write fault; a directory in place of gen_X.go (open fails) and a symlink to /dev/full (open succeeds, write fails) are used instead",
 ]
 
 TIMEOUT = 30
@@ -141,16 +141,22 @@ def run(ctx):
         d = tempfile.mkdtemp(prefix="drv.", dir=wd)
         args, desc = [], []
         for i in range(r.randint(0, 5)):
-            kind = r.choice(["good", "good", "bad", "missing", "unwritable", "foi", "badfoi"])
+            kind = r.choice(["good", "good", "bad", "missing", "unwritable", "devfull", "foi", "badfoi"])
             name = "f%d.%s" % (i, "foi" if kind in ("foi", "badfoi") else "fo")
             isfo = not name.endswith(".foi")
             if kind != "missing":
                 open(os.path.join(d, name), "w").write(badsrc if kind in ("bad", "badfoi") else good.replace("f ()", "f%d ()" % i))
             if kind == "unwritable":
                 os.makedirs(os.path.join(d, "gen_f%d.go" % i))
+            if kind == "devfull":
+                # the destination opens but every write fails (ENOSPC): a fault root can induce
+                if os.path.exists("/dev/full"):
+                    os.symlink("/dev/full", os.path.join(d, "gen_f%d.go" % i))
+                else:
+                    os.makedirs(os.path.join(d, "gen_f%d.go" % i))
             args.append(name)
             desc.append("(%s %s %s %s %s)" % (name, str(isfo).lower(), str(kind != "missing").lower(),
-                                             str(kind not in ("bad", "badfoi")).lower(), str(kind != "unwritable").lower()))
+                                             str(kind not in ("bad", "badfoi")).lower(), str(kind not in ("unwritable", "devfull")).lower()))
         rc, out, err = run_fc(fc, args, d)
         written = [a for a in args if a.endswith(".fo") and os.path.isfile(os.path.join(d, "gen_" + a[:-3] + ".go"))]
         diag = "-"
@@ -174,7 +180,7 @@ def run(ctx):
             # without a file or fails without diagnostic is a failing input
             ctx.direct.append({"kind": "driver behaviour differs from exit-0-iff-complete discipline", "args": i, "predicted": e, "observed": o})
     shutil.rmtree(wd, ignore_errors=True)
-    ctx.finish(rule="tokenizer: every byte value x 12 continuations, random fragment strings, corpus files, truncated/damaged corpus files through the real scanners vs the model; real binary (timeout %ds, 6 GB address-space limit) on mutants of the samples and compiler sources: truncation at random offsets, token deletion/duplication/swap, indentation damage, inserted fragments, unterminated comments/strings, comment at EOF, self-referential and ill-typed definitions, deep nesting; argument lists mixing good/bad/missing/unwritable/.foi files vs the driver model; distinct = distinct mutants" % TIMEOUT)
+    ctx.finish(rule="tokenizer: every byte value x 12 continuations, random fragment strings, corpus files, truncated/damaged corpus files through the real scanners vs the model; real binary (timeout %ds, 6 GB address-space limit) on mutants of the samples and compiler sources: truncation at random offsets, token deletion/duplication/swap, indentation damage, inserted fragments, unterminated comments/strings, comment at EOF, self-referential and ill-typed definitions, deep nesting; argument lists mixing good/bad/missing/unwritable (open fails)/full device (write fails)/.foi files vs the driver model; distinct = distinct mutants" % TIMEOUT)
 
 
 def replay(ctx, path):
